@@ -24,6 +24,8 @@ ASSUMPTIONS = [
 ]
 
 _STATES = None
+# the generator member `ga` (driven by list()) takes part with a lower weight
+GFNS = ["fa", "fb", "fc", "fa", "fb", "fc", "ga"]
 
 
 def _states():
@@ -182,20 +184,20 @@ def shard(cfg):
 
     rec = Recorder()
     free = st.tuples(
-        T.selector_strategy(max_depth=3, focus="no"),
-        T.plan_strategy(max_nodes=cfg["nodes"], max_depth=cfg["depth"]),
+        T.selector_strategy(max_depth=3, focus="no", fns=GFNS),
+        T.plan_strategy(max_nodes=cfg["nodes"], max_depth=cfg["depth"], fns=GFNS),
         st.sampled_from(["probing", "overlay"]),
         st.one_of(st.none(), st.lists(st.integers(0, 3), min_size=4, max_size=12)),
     )
     forced = st.tuples(
-        T.selector_strategy(max_depth=3, focus="yes"),
-        T.plan_strategy(max_nodes=cfg["nodes"], max_depth=cfg["depth"]),
+        T.selector_strategy(max_depth=3, focus="yes", fns=GFNS),
+        T.plan_strategy(max_nodes=cfg["nodes"], max_depth=cfg["depth"], fns=GFNS),
         st.just("forced"),
         st.one_of(st.none(), st.lists(st.integers(0, 3), min_size=4, max_size=12)),
     )
     pair = st.tuples(
-        st.tuples(T.selector_strategy(max_depth=3, focus="no"), T.selector_strategy(max_depth=2, focus="no")),
-        T.plan_strategy(max_nodes=cfg["nodes"], max_depth=cfg["depth"]),
+        st.tuples(T.selector_strategy(max_depth=3, focus="no", fns=GFNS), T.selector_strategy(max_depth=2, focus="no", fns=GFNS)),
+        T.plan_strategy(max_nodes=cfg["nodes"], max_depth=cfg["depth"], fns=GFNS),
         st.just("pair"),
         st.none(),
     )
